@@ -26,6 +26,8 @@ func Check() *common.Check {
 	return &common.Check{
 		ID:    "C03",
 		Level: "exploration",
+		// every case is recorded before it runs: a fatal error or a hang of the worker is attributed to it
+		CrashSafe: true,
 		Rule: "every statement of the model grammar (sqlgen.All: all expression trees with <=2 operator nodes over the full operator catalogue, " +
 			"<=3 (quick) / <=4 (thorough) over one representative per precedence class, every expression hole x every representative expression, " +
 			"all 2^10 SELECT clause subsets, DML/DDL clause subsets, statement-valued holes to depth 1/2), each in minimal- and full-parenthesis form " +
